@@ -31,7 +31,6 @@ type c11Rec struct {
 	off uint64
 }
 
-
 func codecOf(sorted bool) (multicodec.Code, uint64) {
 	if sorted {
 		return multicodec.CarIndexSorted, refcar.CodecIndexSorted
@@ -338,12 +337,12 @@ func genC11(g *mon.G) {
 
 func init() {
 	Register(&mon.Check{
-		ID:    "C11",
-		Level: "exploration",
-		Rule: "cases = (a) seeded record multisets (8 hash codes, digest widths 0..80, repeated digests with distinct offsets and under other hash codes, offsets up to 2^63-1) loaded in 8 (quick) / 24 (thorough) permutations into both on-disk codecs: reported byte count, strict reference parse, bucket/entry order, multiset equality, permutation invariance, ReadFrom round trip (seekable and plain reader) with identical GetAll/ForEach and byte-identical re-marshal; (b) writing sessions whose embedded (flattened) index is compared with GenerateIndex over the finished payload",
+		ID:          "C11",
+		Level:       "exploration",
+		Rule:        "cases = (a) seeded record multisets (8 hash codes, digest widths 0..80, repeated digests with distinct offsets and under other hash codes, offsets up to 2^63-1) loaded in 8 (quick) / 24 (thorough) permutations into both on-disk codecs: reported byte count, strict reference parse, bucket/entry order, multiset equality, permutation invariance, ReadFrom round trip (seekable and plain reader) with identical GetAll/ForEach and byte-identical re-marshal; (b) writing sessions whose embedded (flattened) index is compared with GenerateIndex over the finished payload",
 		Assumptions: []string{"reference index parser/builder (refcar)", "order among entries sharing one digest is left open by the format and is canonicalised before comparison"},
-		Gen:   genC11,
-		Run:   runC11,
-		MinCover: map[string]int{"multisets-with-repeated-digest": 20, "sessions": 50, "sessions-without-repeated-digest": 10, "sessions-with-repeated-digest": 5},
+		Gen:         genC11,
+		Run:         runC11,
+		MinCover:    map[string]int{"multisets-with-repeated-digest": 20, "sessions": 50, "sessions-without-repeated-digest": 10, "sessions-with-repeated-digest": 5},
 	})
 }
